@@ -132,6 +132,8 @@ def work(args):
                     agg["faults"][fk] = agg["faults"].get(fk, 0) + fv
             elif k == "switch_sig":
                 agg["switch"].add(v)
+            elif k == "switch_sigs":
+                agg["switch"].update(v)
             elif k == "state_sigs":
                 agg["states"].update(v)
             elif k == "probes":
@@ -281,6 +283,7 @@ def write_evidence(pid, tier, seed, mod, total, n_viol, kf_hits, extra_assumptio
         "distinct_event_logs": len(total["digests"]),
         "distinct_interleavings_actor_switch_sequences": len(total["switch"]),
         "distinct_states_marker_x_shadow_stack_shape": len(total["states"]),
+        "state_measure": getattr(mod, "STATE_MEASURE", "(normalised in-progress marker set, shadow-stack shape) pairs seen at hand-overs"),
         "fault_kinds_fired": total["faults"],
         "rare_condition_probes": total["probes"],
         "totals": total["sums"],
